@@ -19,6 +19,7 @@ func c09Gen(rt *rapid.T) wProg {
 	p.Cfg = wConfig{Users: 4, Root: gPct(rt, 30)}
 	// user 1 has two sessions: the second one mostly sits on 'me' only and observes {pres}
 	p.Sess = append([]int(nil), gPick(rt, [][]int{{0, 1, 1, 2}, {0, 1, 1, 2, 3}, {0, 0, 1, 1, 2}}, "layout")...)
+	gGrpc(rt, &p, 20)
 	isChan := gPct(rt, 35)
 	kind := "new"
 	if isChan {
@@ -97,6 +98,9 @@ func c09Gen(rt *rapid.T) wProg {
 				wOp{K: "note", S: s, T: t, A: gPick(rt, []string{"read", "recv"}, "w2"), N: k + 1}, wOp{K: "note", S: s, T: t, A: "read", N: gPick(rt, []int{k, k - 1, 1000}, "stale")})
 		case x < 62:
 			what := gPick(rt, []string{"read", "read", "read", "recv", "recv", "recv", "kp", "kpa", "kpv", "data", "bogus", ""}, "what")
+			if len(p.Cfg.Grpc) > 0 && (what == "kpa" || what == "kpv") {
+				what = "kp" // the protobuf schema's note kinds do not include the audio/video variants
+			}
 			seq := gPick(rt, []int{-1, 0, 1, 1, 1, 2, 2, 2, 3, 3, 4, 5, 6, 1000}, "seq")
 			if strings.HasPrefix(what, "kp") && gPct(rt, 80) {
 				seq = 0
